@@ -34,7 +34,8 @@ META = {
         ' Also: lock-down of the colon / segment / sec_within settings, require_colon is computed from the locked-down arguments (provenance), the fallback takes over every list parse_safe hands off, side tags of unused text are constants, exhaustive layout dispatch, the settings are known to Config.'
         ' Round 7: cleanup_desc removes words from the end of a block only; a local name bound to a list the object keeps is not grown in place (`pulled = self.matches[0][1]; pulled += ...`).'
         ' Round 8: the colon-required fallback stages a single section (shared with C11).'
-        " Round 9: segment cuts at TwpRgeFinder's matches, not at every raw pattern match; the sec_within length gate is >=."),
+        " Round 9: segment cuts at TwpRgeFinder's matches, not at every raw pattern match; the sec_within length gate is >=."
+        ' Round 12: field-role names are judged only when they speak about the match, not about the block.'),
     'families': ['TBL', 'LOCK', 'ORDER', 'PAIR', 'FORWARD', 'DEADPARAM', 'SIB-DEFAULTS'],
 }
 
